@@ -78,7 +78,13 @@ def run(ctx):
             items.append(descs.tract_corr_item(text, cfg=cfg, pq=True))
     # OCR-garbled Twp/Rge numbers under ocr_scrub: every character the OCR pattern admits into a number, not only those the
     # substitution table repairs
-    OCR_CHARS = 'SsOoIiLl]|0159'
+    # every character the OCR Twp/Rge pattern admits into a number (asked of the compiled pattern itself, so IGNORECASE's Unicode
+    # partners such as U+017F, U+0131, U+0130 are included), not only those the substitution table repairs
+    from pytrs.parser.rgxlib import pp_twprge_ocr_scrub
+    admitted = ''.join(chr(c) for c in range(0x20, 0x250) if not chr(c).isdigit()
+                       and (m := pp_twprge_ocr_scrub.search(f'T1{chr(c)}4N-R97W')) is not None and m.group(0).startswith('T1' + chr(c)))
+    OCR_CHARS = 'SsOoIiLl]|0159' + admitted
+    rep.extra['ocr_admitted_chars'] = admitted
     for i in range(ctx.budget(150, 5000)):
         r = rng.fork(700000 + i)
         def garble(n):
